@@ -12,6 +12,10 @@ CLAIMED['C15'] = dict(
    text='Coq theorems (no axioms): delta decode(encode)=id for every data and distance, length preserved; ARM BCJ decode(encode)=id for every data and every 4-aligned start offset (unaligned offsets provably break it), length preservation of the stride-4 filters. All eight BCJ filters and delta are transcribed to Gallina (Bcj.v, x86/IA-64 tables regenerated from source) and tied to the code by white-box differential runs of the static *_code functions, the streaming simple_coder under random slicing, the one-shot API, plus implementation-only round trips; the Coq reference itself is validated against released liblzma 5.4.1.',
    note='Partial: x86, ARM-Thumb, ARM64, PowerPC, SPARC, IA-64, RISC-V round trips and the simple_coder buffering protocol are explored + tied by correspondence, not proved. Trusted: Coq kernel, gen_bcj regex translator, extraction, driver glue, hand transcription.',
    technique='Coq proof (modular arithmetic + stride lifting) + white-box differential correspondence', ref='§6 C15')
+CLAIMED['C11'] = dict(
+   text='Coq theorems (no axioms) for arbitrary inner coders and arbitrary call histories: every programming-error clause refuses without acting, sticky error / sticky end, a finished flush returns to RUN, BUF_ERROR only on the second consecutive stalled invocation and never fatal, TIMED_OUT never surfaces, exact accounting of avail/total fields, totals are exact sums. The model step function is checked (vm_compute) against the COMPLETE transition table obtained on every run by executing the real lzma_code() of the current tree against a scripted inner coder (27k rows), and against supported_actions of all 18 public initialisers.',
+   note='Trusted: Coq kernel+vm_compute, drv_code.c/gen.py translator, extraction + driver glue for history replay. Memory outside the buffers: guard bytes + ASan on explored histories only. Inner coders abstract.',
+   technique='Coq proof over model + exhaustive translator-generated transition table (vm_compute) + history replay', ref='§6 C11')
 REASONS_PENDING = 'not yet built in this round (work in progress; see DESIGN.md §10 order of work)'
 props = [json.loads(l) for l in open(os.path.join(V, 'properties.jsonl'))]
 checks, na = [], []
